@@ -53,6 +53,14 @@ Definition bg_lock_how : bool * bool * bool := (false, false, false).
 Definition bg_pid_how : bool * bool * bool := (true, false, false).
 Definition bg_log_how : bool * bool * bool := (false, false, false).
 Definition bg_seed_how : bool * bool * bool := (true, false, false).
+(* what the source does to an old file it could not unlink (a daemon that is not root, a directory it may not
+   write to) and that open() therefore REUSED, mode and all: Some (base, keep, gives_up) = fchmod (fd, base land
+   lnot (inherited land keep)) and, when that fails (file of another owner), gives_up = nothing is written;
+   None = no fchmod: the old mode stays.  Observed with strace on starts of a uid-4242 daemon. *)
+Definition fg_pid_rechmod : option (N * N * bool) := Some (420, 420, false).
+Definition fg_seed_rechmod : option (N * N * bool) := Some (384, 0, true).
+Definition bg_pid_rechmod : option (N * N * bool) := Some (420, 0, false).
+Definition bg_seed_rechmod : option (N * N * bool) := Some (384, 0, true).
 (* which of the process's user ids each ownership test compares with, observed by starting munged with
    real uid <> effective uid and the file (directory) in question owned by either *)
 Definition id_real : N := 0.
